@@ -217,12 +217,12 @@ class Ev(object):
         return float(reff), float(vshell), float(vshell * ratio)
 
 
-def residual(ev, pars, lam, mu, exps, I0=None):
-    """worst |d1 - k d0| / tolerance over q; (ratio, d1, expected)"""
+def residual(ev, pars, lam, mu, exps, I0=None, power=3):
+    """worst |d1 - k d0| / tolerance over q with k = lam^power mu^2; (ratio, d1, expected)"""
     bg = pars["background"]
     if I0 is None:
         I0 = ev.I(pars)
-    k = lam ** 3 * mu ** 2
+    k = lam ** power * mu ** 2
     I1 = ev.I(rescale(ev.info, pars, lam, mu, exps), lam)
     d0, d1 = (I0 - bg) * k, I1 - bg
     if not (np.all(np.isfinite(d0)) and np.all(np.isfinite(d1))):
@@ -298,7 +298,6 @@ def run_case(case, ctx):
 
 
 def _judge(r, ev, case, desc, pars, I0, lam, mu, decl, clause, nt, reported, ctx):
-    info = ev.info
     try:
         res, d1, d0 = residual(ev, pars, lam, mu, decl, I0)
     except Exception as exc:  # noqa
@@ -316,8 +315,9 @@ def _judge(r, ev, case, desc, pars, I0, lam, mu, decl, clause, nt, reported, ctx
         return
     with np.errstate(all="ignore"):
         ratio = d1 / d0
-    text = ("%s\n  call_kernel(q/%g, rescaled pars [SLD x %g]) - bg = %s\n  expected %s = %s\n  observed/expected = %s"
-            % (desc, lam, mu, d1, "lambda^3 (I-bg)" if clause == "lambda3" else "mu^2 (I-bg)", d0, ratio))
+    text = ("%s\n  call_kernel(q/%g, pars rescaled by lambda=%g per declared unit, SLDs x %g) - bg = %s\n  expected %s = %s\n"
+            "  observed/expected = %s"
+            % (desc, lam, lam, mu, d1, "lambda^3 (I-bg)" if clause == "lambda3" else "mu^2 (I-bg)", d0, ratio))
     if clause != "lambda3":
         key = (clause, None)
         if key not in reported:
@@ -326,10 +326,10 @@ def _judge(r, ev, case, desc, pars, I0, lam, mu, decl, clause, nt, reported, ctx
         else:
             r.ok(nt=nt, outcome="FAIL-dup")
         return
-    hints, note = exponent_search(case["model"], ctx.seed)
-    text += "\n  " + note
+    found = exponent_search(case["model"])
+    text += "\n  " + found["note"]
     new = False
-    for h in hints:
+    for h in found["hints"]:
         key = (clause, h)
         if key not in reported:
             reported.add(key)
@@ -340,74 +340,117 @@ def _judge(r, ev, case, desc, pars, I0, lam, mu, decl, clause, nt, reported, ctx
         r.ok(nt=nt, outcome="FAIL-dup")
 
 
+def _sizes(ev, pars, exps, mode, lam):
+    """[(what, got, want, base)] for one mode and lambda"""
+    R0, Vs0, Vf0 = ev.Fq(pars, mode)
+    R1, Vs1, Vf1 = ev.Fq(rescale(ev.info, pars, lam, 1.0, exps), mode)
+    out = []
+    if Vf0 == 0.0 and Vf1 == 0.0:
+        # the model declares the point invalid (zero total weight): nothing is reported
+        return [("invalid-point", 0.0, 0.0, 0.0)]
+    if mode <= 1:       # volumes do not depend on the mode: judged at modes 0 and 1
+        if Vs0 == 1.0 and Vs1 == 1.0 and Vf0 == 1.0 and Vf1 == 1.0:
+            out.append(("no-volume", 1.0, 1.0, 1.0))
+        else:
+            out.append(("shell_volume", Vs1, lam ** 3 * Vs0, Vs0))
+            out.append(("form_volume", Vf1, lam ** 3 * Vf0, Vf0))
+    if mode > 0:
+        out.append(("radius_effective", R1, lam * R0, R0))
+    return out
+
+
+def _size_ok(got, want):
+    return abs(got - want) <= 1e-12 * abs(want) + 1e-300
+
+
 def _judge_sizes(r, ev, case, desc, pars, decl, reported, ctx):
     info = ev.info
     nmodes = len(info.radius_effective_modes or [])
     for mode in range(0, nmodes + 1):
-        try:
-            R0, Vs0, Vf0 = ev.Fq(pars, mode)
-        except Exception as exc:  # noqa
-            r.fail("%s: call_Fq(mode=%d) raised %r" % (desc, mode, exc), {"model": case["model"], "clause": "raises"})
-            return
         for lam in LAMBDAS:
-            R1, Vs1, Vf1 = ev.Fq(rescale(info, pars, lam, 1.0, decl), mode)
-            checks = [("shell_volume", Vs1, lam ** 3 * Vs0, Vs0), ("form_volume", Vf1, lam ** 3 * Vf0, Vf0)]
-            if mode > 0:
-                checks.append(("radius_effective", R1, lam * R0, R0))
+            try:
+                checks = _sizes(ev, pars, decl, mode, lam)
+            except Exception as exc:  # noqa
+                r.fail("%s: call_Fq(mode=%d) raised %r" % (desc, mode, exc), {"model": case["model"], "clause": "raises"})
+                return
             for what, got, want, base in checks:
-                if what != "radius_effective" and mode > 1:
-                    continue        # volumes do not depend on the mode: judged at modes 0 and 1
-                if what != "radius_effective" and Vs0 == 1.0 and Vs1 == 1.0:
+                if what == "no-volume":
                     r.ok(outcome="no-volume", branches=["no-volume-reported"])
+                    continue
+                if what == "invalid-point":
+                    r.ok(outcome="invalid-point", branches=["invalid-point"])
                     continue
                 if not (np.isfinite(got) and np.isfinite(want)):
                     r.inconc("non-finite size output")
                     continue
-                if abs(got - want) <= 1e-12 * abs(want) + 1e-300:
+                if _size_ok(got, want):
                     r.ok(nt=bool(base != 0), outcome=what, branches=[what + "-held"])
                     continue
-                clause = what + ("" if what != "radius_effective" else "")
-                key = (clause, mode if what == "radius_effective" else None)
-                if key in reported:
+                # which parameter?  the one whose relabelling restores I(q), if that also restores this output
+                found = exponent_search(case["model"])
+                hints = ["none"]
+                if found["assign"] is not None and found["diff"]:
+                    exps = dict(decl)
+                    exps.update(found["assign"])
+                    again = [c for c in _sizes(ev, pars, exps, mode, lam) if c[0] == what]
+                    if again and _size_ok(again[0][1], again[0][2]):
+                        hints = list(found["diff"])
+                name = (" (%r)" % info.radius_effective_modes[mode - 1]) if mode else ""
+                new = False
+                for h in hints:
+                    key = (what, h, mode if h == "none" and what == "radius_effective" else None)
+                    if key in reported:
+                        continue
+                    reported.add(key)
+                    new = True
+                    fk = {"model": case["model"], "clause": what, "parameter-hint": h}
+                    if key[2] is not None:
+                        fk["mode"] = mode
+                    r.fail("%s\n  call_Fq(pars rescaled by lambda=%g per declared unit, radius_effective_mode=%d%s): %s = %r, "
+                           "expected lambda^%d * %r = %r\n  %s"
+                           % (desc, lam, mode, name, what, got, 1 if what == "radius_effective" else 3, base, want,
+                              found["note"]), fk)
+                if not new:
                     r.ok(outcome="FAIL-dup")
-                    continue
-                reported.add(key)
-                fk = {"model": case["model"], "clause": clause}
-                name = ""
-                if what == "radius_effective":
-                    fk["mode"] = mode
-                    name = " (%r)" % info.radius_effective_modes[mode - 1]
-                r.fail("%s\n  call_Fq(rescaled pars, lambda=%g, radius_effective_mode=%d%s): %s = %r, expected "
-                       "lambda^%d * %r = %r" % (desc, lam, mode, name, what, got, 1 if mode and what == "radius_effective"
-                                                else 3, base, want), fk)
 
 
 # ------------------------------------------------------------------------------------------------
+def _search_sets(info, free):
+    """parameter sets that discriminate unit assignments: zero defaults of free rows are moved to 0.2 everywhere,
+    then each free row in turn is moved by x0.71 / x1.37"""
+    base = defaults(info)
+    by_id = {rid: (names, p) for rid, u, names, ctl, p in rows(info)}
+    for rid in free:
+        names, p = by_id[rid]
+        for n in names:
+            if base[n] == 0.0 and p.limits[0] <= 0.2 <= p.limits[1]:
+                base[n] = 0.2
+    psets = [base]
+    for k, rid in enumerate(free):
+        alt = dict(base)
+        for n in by_id[rid][0]:
+            alt[n] = base[n] * (0.71, 1.37)[k % 2]
+        psets.append(alt)
+    return psets
+
+
 @functools.lru_cache(maxsize=None)
-def exponent_search(model_name, seed=0):
+def exponent_search(model_name):
     """
-    Enumerate unit-exponent assignments for the non-SLD, non-angle, non-control rows and keep those for which
-    the lambda^3 law holds at the default parameter set AND with each row moved off default (lambda = 1.3, 0.5).
-    Returns ([parameter hints], note).  Hints name the rows whose exponent differs in the UNIQUE survivor;
-    ['ambiguous'] / ['none'] otherwise.
+    Enumerate unit-exponent assignments for the non-SLD, non-angle, non-control rows and keep those under which
+    (I-bg) scales as lambda^k with one integer k in 0..6 at several parameter sets and lambda = 1.3, 0.5.
+    k = 3 is the law; if no assignment gives k = 3 the survivors with k != 3 are reported (the model then contains
+    an implicit length: its scale is not dimensionless).
+    Result: {"hints": [...], "assign": {row: exponent} | None, "power": k, "diff": [rows relabelled], "note": text}
     """
     m = build.model(model_name)
     info = m.info
     ev = Ev(m, "1d")
     decl = declared(info)
+    units = {rid: u for rid, u, _, _, _ in rows(info)}
     free = [rid for rid, u, names, ctl, p in rows(info)
             if u != SLD_UNIT and u not in ("degrees", "degree") and not ctl and not p.choices]
-    base = defaults(info)
-    # parameter sets used to discriminate: defaults + each free row x 0.71 / x 1.37 alternately
-    psets = [base]
-    for k, rid in enumerate(free):
-        for r_, u, names, ctl, p in rows(info):
-            if r_ == rid:
-                alt = dict(base)
-                f = (0.71, 1.37)[k % 2]
-                for n in names:
-                    alt[n] = base[n] * f
-                psets.append(alt)
+    psets = _search_sets(info, free)
     if len(free) <= 5:
         space = [dict(zip(free, combo)) for combo in itertools.product(SEARCH_EXPS, repeat=len(free))]
         bound = "all %d^%d assignments" % (len(SEARCH_EXPS), len(free))
@@ -422,15 +465,31 @@ def exponent_search(model_name, seed=0):
                     space.append(a)
         bound = "all assignments <=2 of %d rows away from the declaration" % len(free)
     I0s = [ev.I(p) for p in psets]
+    bg = psets[0]["background"]
     survivors = []
     for cand in space:
         exps = dict(decl)
         exps.update(cand)
+        # implied power at the first parameter set, lambda = 1.3
+        try:
+            I1 = ev.I(rescale(info, psets[0], 1.3, 1.0, exps), 1.3)
+        except Exception:  # noqa
+            continue
+        d0, d1 = I0s[0] - bg, I1 - bg
+        j = int(np.argmax(np.abs(d0)))
+        with np.errstate(all="ignore"):
+            ratio = d1[j] / d0[j]
+        if not (np.isfinite(ratio) and ratio > 0):
+            continue
+        pw = math.log(ratio) / math.log(1.3)
+        power = int(round(pw))
+        if abs(pw - power) > 1e-6 or not 0 <= power <= 6:
+            continue
         good = True
         for pars, I0 in zip(psets, I0s):
             for lam in (1.3, 0.5):
                 try:
-                    res, _, _ = residual(ev, pars, lam, 1.0, exps, I0)
+                    res, _, _ = residual(ev, pars, lam, 1.0, exps, I0, power=power)
                 except Exception:  # noqa
                     res = None
                 if res is None or res > 1.0:
@@ -439,18 +498,47 @@ def exponent_search(model_name, seed=0):
             if not good:
                 break
         if good:
-            survivors.append(cand)
-    head = "exponent search over rows %s (%s, %d parameter sets, lambda 1.3 and 0.5): " % (free, bound, len(psets))
-    if len(survivors) == 1:
-        diff = [rid for rid in free if survivors[0][rid] != decl[rid]]
-        units = {rid: u for rid, u, _, _, _ in rows(info)}
-        note = head + "UNIQUE repair: " + "; ".join(
-            "%s declared %r (lambda^%d) behaves as lambda^%d -> unit %s"
-            % (rid, units[rid], decl[rid], survivors[0][rid], EXP_UNIT.get(survivors[0][rid])) for rid in diff)
-        return (diff or ["none"]), note
-    if not survivors:
-        return ["none"], head + "no assignment restores the law"
-    return ["ambiguous"], head + "%d assignments restore the law, e.g. %s" % (len(survivors), survivors[:3])
+            survivors.append((cand, power))
+    head = ("exponent search over rows %s (%s in {-2..3}, %d parameter sets, lambda 1.3 and 0.5): "
+            % (free, bound, len(psets)))
+    law = [s for s in survivors if s[1] == 3]
+    pool = law or survivors
+    out = {"hints": ["none"], "assign": None, "power": None, "diff": []}
+    if len(pool) == 1:
+        cand, power = pool[0]
+        diff = [rid for rid in free if cand[rid] != decl[rid]]
+        fix = "; ".join("%s declared %r (lambda^%d) behaves as lambda^%d -> unit %s"
+                        % (rid, units[rid], decl[rid], cand[rid], EXP_UNIT.get(cand[rid])) for rid in diff)
+        out.update(assign=cand, power=power, diff=diff)
+        if power == 3:
+            out["hints"] = diff or ["none"]
+            out["note"] = head + ("UNIQUE repair: " + fix if diff else
+                                  "the declared units are the unique assignment satisfying the law at the search sets")
+        else:
+            out["hints"] = diff + ["implicit-length"]
+            out["note"] = (head + "no assignment gives lambda^3; UNIQUE consistent assignment gives (I-bg) ~ lambda^%d "
+                           "(the model contains an implicit length^%d: its scale is not dimensionless)%s"
+                           % (power, 3 - power, ("; relabel " + fix) if diff else ""))
+        # do the size outputs follow the repaired assignment?
+        exps = dict(decl)
+        exps.update(cand)
+        bad = []
+        for mode in range(0, len(info.radius_effective_modes or []) + 1):
+            for pars in psets[:2]:
+                try:
+                    for what, got, want, base in _sizes(ev, pars, exps, mode, 1.3):
+                        if what not in ("no-volume", "invalid-point") and not _size_ok(got, want):
+                            bad.append("%s%s" % (what, "[mode %d]" % mode if what == "radius_effective" else ""))
+                except Exception:  # noqa
+                    bad.append("call_Fq raises")
+        if bad:
+            out["note"] += "; under this assignment these outputs still do not scale: %s" % sorted(set(bad))
+    elif not pool:
+        out["note"] = head + "no assignment gives (I-bg) ~ lambda^k for an integer k"
+    else:
+        out["hints"] = ["ambiguous"]
+        out["note"] = head + "%d assignments are consistent, e.g. %s" % (len(pool), pool[:3])
+    return out
 
 
 def finish(ctx, report):
